@@ -10,6 +10,9 @@ for d in sorted(glob.glob(os.path.join(V, "seeded", "C*"))):
     r = json.load(open(rp)) if os.path.exists(rp) else {}
     summ = (m.get("summary") or "").replace("|", "/").replace("\n", " ")[:150]
     need = (m.get("what_it_needs_to_manifest") or "").replace("|", "/").replace("\n", " ")[:120]
+    if m.get("retired"):
+        print("| %s | %s (%s) | - | retired | %s |" % (os.path.basename(d), summ, need, m["retired"][:160].replace("|", "/")))
+        continue
     for p, c in (r.get("checks") or {"-": {"exit": None, "violations": 0}}).items():
         res = "not run" if c["exit"] is None else ("caught" if c["exit"] == 1 and c["violations"] else "**MISSED**")
         if c.get("no_failing_input_found"):
